@@ -43,8 +43,10 @@ type Ev struct {
 	Anc        Bits // ancestors-or-self
 	Salt       uint32
 	// Lo..Hi is the range of frames the frame rule allowed when the event was created
-	// (filled by Allowed before Commit).
+	// (filled by Allowed before Commit). Hi is what Build must assign (capped at 100 above the
+	// self-parent's frame); HiProcess is the highest frame Process must accept (no cap).
 	Lo, Hi     uint32
+	HiProcess  uint32
 	allowedSet bool
 }
 
@@ -337,16 +339,19 @@ func (r *Ref) Allowed(e *Ev) (lo, hi uint32) {
 	}
 	e.allowedSet = true
 	if e.SelfParent < 0 {
-		e.Lo, e.Hi = 1, 1
+		e.Lo, e.Hi, e.HiProcess = 1, 1, 1
 		return 1, 1
 	}
 	spf := r.Evs[e.SelfParent].Frame
 	f := spf
-	for f < spf+100 && r.quorumOn(e, f) {
+	for r.quorumOn(e, f) {
 		f++
 	}
-	e.Lo, e.Hi = spf, f
-	return spf, f
+	e.Lo, e.Hi, e.HiProcess = spf, f, f
+	if e.Hi > spf+100 {
+		e.Hi = spf + 100 // Build looks at most 100 frames ahead
+	}
+	return e.Lo, e.Hi
 }
 
 // quorumOn: is the candidate forkless-caused by roots of frame g held by a quorum of weight?
